@@ -26,6 +26,11 @@ RULE = ("cases = corpus (defect witnesses) + N generated problems (50% consisten
         "EVERY strategy (the goal-value parser exists once per strategy): literals that are the EMPTY string, one character, or contain blanks, "
         "as query literal on a field holding that / another string, as a string one rule has to derive, as a rule condition (== and !=) that is "
         "not satisfied by the facts and becomes a sub-goal (one and two levels, conjunctions), and string-heavy consistent-Horn KBs; "
+        "+ N/10 name-literal problems under EVERY strategy: the string a rule assigns (and goals / conditions compare with) is the NAME of a "
+        "flat field of the same store (`A := \"X\"` while a fact X exists: the seed fact, an unrelated fact, the goal's or the assigned field "
+        "itself; initial, derived earlier on the proof path or by an earlier action of the same rule, or absent; holding number / bool / string / "
+        "another field name / Integer / array / object), the goal depending on it directly (== / !=), through one or two rule conditions, or not "
+        "at all (then the facts handed back carry it), and name-heavy consistent-Horn KBs; "
         "+ N/12 'failing first alternative' problems (at depth 1..3 a candidate fails after it or its sub-goals wrote — interference through a "
         "second assignment / Retract / Append, Err on the retry or the first attempt, wrong value, underivable condition, depth cut — then a later "
         "alternative succeeds and the enclosing rule fails on an underivable last conjunct) and N/8 problems whose rules carry Append / Retract / "
